@@ -507,6 +507,82 @@ func runC13(c *Ctx) {
 	ruleJ3(c, "A2")
 	ruleA4(c, "A4")
 	ruleA5(c, "A5")
+	ruleA6(c, "A6")
+}
+
+// ruleA6: explodeNode descends into every key and value: its recursive calls
+// on children are not conditional on what the child is.
+func ruleA6(c *Ctx, rule string) {
+	r := c.R
+	r.Rule(rule, "explode descends into every key and value", 3)
+	ex := c.libFunc("explodeNode")
+	if ex == nil {
+		r.Fatal("anchor missing: explodeNode")
+		return
+	}
+	n := 0
+	eachInstr(ex, func(ins ssa.Instruction) {
+		call, ok := ins.(*ssa.Call)
+		if !ok || call.Call.StaticCallee() != ex {
+			return
+		}
+		arg := call.Call.Args[0]
+		// a child loaded from a Content slice
+		fromContent := false
+		if u, ok := arg.(*ssa.UnOp); ok {
+			if ia, ok := u.X.(*ssa.IndexAddr); ok && elemTypeName(ia.X.Type()) == "[]CandidateNode" {
+				fromContent = true
+			}
+		}
+		if ex2, ok := arg.(*ssa.Extract); ok {
+			if _, isNext := ex2.Tuple.(*ssa.Next); isNext {
+				fromContent = true
+			}
+		}
+		if !fromContent {
+			return
+		}
+		n++
+		key := fmt.Sprintf("explodeNode/recurse(%s)", exprOfValue(arg))
+		cond := ""
+		dominatingConds(call.Block(), func(cv ssa.Value, taken bool, at *ssa.BasicBlock) {
+			if dependsOnValue(cv, arg, 0) {
+				cond = c.P.pos(cv.Pos())
+			}
+		})
+		if cond == "" {
+			r.Discharge(rule, key, c.P.pos(call.Pos()), "the child is exploded whatever it is")
+		} else {
+			r.Finding(rule, key, c.P.pos(call.Pos()), "a child is exploded only when a test on the child itself holds (at "+cond+"): anchors on plain keys / aliases inside complex keys survive explode")
+		}
+	})
+	if n == 0 {
+		r.Finding(rule, "explodeNode/recurse", c.P.pos(ex.Pos()), "explodeNode no longer recurses into children taken from Content")
+	}
+}
+
+func dependsOnValue(v ssa.Value, target ssa.Value, d int) bool {
+	if d > 8 {
+		return false
+	}
+	if v == target {
+		return true
+	}
+	switch x := v.(type) {
+	case *ssa.UnOp:
+		return dependsOnValue(x.X, target, d+1)
+	case *ssa.FieldAddr:
+		return dependsOnValue(x.X, target, d+1)
+	case *ssa.BinOp:
+		return dependsOnValue(x.X, target, d+1) || dependsOnValue(x.Y, target, d+1)
+	case *ssa.Call:
+		for _, a := range x.Call.Args {
+			if dependsOnValue(a, target, d+1) {
+				return true
+			}
+		}
+	}
+	return false
 }
 
 // ruleA4: anchorMap[name] = node is not conditional on a lookup of the same map
@@ -612,6 +688,7 @@ func runC14(c *Ctx) {
 	ruleFormats(c, "K2", "K3")
 	r.Rule("K5", "a reused decoder starts clean (inverse pairs are applied element by element with one decoder)", 8)
 	ruleS4(c, "K5")
+	ruleK6(c, "K6")
 	// K4: E1 (error discipline) + E2 (flush) restricted to codec files
 	before := len(r.obligs)
 	ruleE1(c, "K4")
@@ -939,5 +1016,70 @@ func ruleJ6(c *Ctx) {
 				}
 			}
 		})
+	}
+}
+
+// ruleK6: the XML decoder builds reserved keys from string-typed fields of
+// XmlPreferences (attribute prefix, content name, directive name,
+// processing-instruction prefix). The encoder's key classifier isAttribute
+// must consult every one of them, or a reserved key that happens to begin with
+// the attribute prefix (the defaults "+content", "+directive", "+p_" all do)
+// is written back as an attribute.
+func ruleK6(c *Ctx, rule string) {
+	r := c.R
+	r.Rule(rule, "the XML encoder's key classifier consults every reserved-name preference the decoder writes keys with", 4)
+	strFields := func(fn *ssa.Function) map[string]string {
+		out := map[string]string{}
+		eachInstr(fn, func(ins ssa.Instruction) {
+			var name string
+			var t types.Type
+			switch x := ins.(type) {
+			case *ssa.FieldAddr:
+				if structNameOfPtr(x.X.Type()) == "XmlPreferences" {
+					name = fieldName(x)
+					t = x.Type().Underlying().(*types.Pointer).Elem()
+				}
+			case *ssa.Field:
+				if n, ok := x.X.Type().(*types.Named); ok && n.Obj().Name() == "XmlPreferences" {
+					name = fieldNameOfField(x)
+					t = x.Type()
+				}
+			}
+			if name == "" {
+				return
+			}
+			if b, ok := t.Underlying().(*types.Basic); ok && b.Kind() == types.String {
+				out[name] = c.P.pos(ins.Pos())
+			}
+		})
+		return out
+	}
+	written := map[string]string{}
+	for _, fn := range c.moduleFuncs() {
+		k := funcKey(fn)
+		if strings.HasPrefix(k, "yqlib.xmlDecoder.") {
+			for f, p := range strFields(fn) {
+				written[f] = p
+			}
+		}
+	}
+	isAttr := c.libFunc("xmlEncoder.isAttribute")
+	if isAttr == nil {
+		r.Fatal("anchor missing: xmlEncoder.isAttribute")
+		return
+	}
+	read := strFields(isAttr)
+	var names []string
+	for f := range written {
+		names = append(names, f)
+	}
+	sort.Strings(names)
+	for _, f := range names {
+		key := "xmlEncoder.isAttribute/consults(" + f + ")"
+		if _, ok := read[f]; ok {
+			r.Discharge(rule, key, read[f], "the decoder builds keys with XmlPreferences."+f+" and the encoder's classifier consults it")
+		} else {
+			r.Finding(rule, key, c.P.pos(isAttr.Pos()), "the XML decoder builds keys with XmlPreferences."+f+" (at "+written[f]+") but xmlEncoder.isAttribute does not consult it: a reserved key that begins with the attribute prefix is re-encoded as an attribute, so decode∘encode is no longer the identity")
+		}
 	}
 }
